@@ -21,7 +21,29 @@ NA = {
  "C19": "UnitTest expect_* macro exception-type matrix; pure control flow, no seam (DESIGN.md 5)",
 }
 
-CHECKS = []  # filled by later commits
+def chk(pid, engine, text, note, design_ref, technique):
+    return {
+        "property_id": pid,
+        "quick_cmd": "bin/check %s --tier quick" % pid,
+        "thorough_cmd": "bin/check %s --tier thorough" % pid,
+        "evidence_file": "/verif/evidence/%s.json" % pid,
+        "replay_cmd_template": "bin/check %s --replay {path}" % pid,
+        "engine": engine,
+        "level_claimed": {"category": "exploration", "text": text, "design_ref": design_ref},
+        "level_note": note,
+        "technique": technique,
+    }
+
+CHECKS = [
+    chk("C14", "sim-fs",
+        "Seeded search over simulated executions: the real Filesystem.cc runs against a simulated kernel (descriptors, pipe-like streams, "
+        "regular files, directory trees, poll readiness, a concurrent deleter) that decides every read/write size, EINTR/EIO/ENOSPC, readdir "
+        "order and full-disk point from one seed; each call is checked against a byte-vector/name-set/map reference model, with a strict oracle "
+        "in fault-free runs and a 'may throw, never lie' oracle when a fault was actually injected. Sampling, not proof.",
+        "Trusted: the simulated kernel in vsim/vfs.cc (POSIX-legal behaviours only), glibc stdio (real), the reference models in engines/sim_fs.cc. "
+        "Not covered: real file systems, readdir errors, fsync/durability (phosg never syncs).",
+        "DESIGN.md 4.2", "deterministic simulation with fault injection (seeded schedules and faults over a simulated kernel, reference-model oracle)"),
+]
 
 def main():
     m = {
@@ -34,7 +56,9 @@ def main():
             "source_commits": [],
             "add_only": True,
         },
-        "engines": [],
+        "engines": [
+            {"name": "sim-fs", "path": "engines/sim_fs.cc", "serves_properties": ["C14"], "kind_free_text": "deterministic simulation: real Filesystem.cc over a simulated kernel (link-time --wrap + fopencookie), seeded fault injection"},
+        ],
         "checks": CHECKS,
         "not_applicable": [{"property_id": k, "reason": v} for k, v in sorted(NA.items())],
         "notes": "Technique family: deterministic simulation with fault injection. See DESIGN.md.",
